@@ -922,8 +922,12 @@ def build_reachability_bitmap(
     commit_sha: ObjectID,
     sha_to_pos: dict[RawObjectID, int],
     object_store: "BaseObjectStore",
-) -> EWAHBitmap:
+) -> EWAHBitmap | None:
     """Build a reachability bitmap for a commit.
+
+    Returns None if the commit reaches an object outside the pack (the pack
+    is not closed under reachability), in which case no bitmap can describe
+    what it reaches.
 
     The bitmap has a bit set for each object that is reachable from the commit.
     The bit position corresponds to the object's position in the pack index.
@@ -937,6 +941,7 @@ def build_reachability_bitmap(
         EWAH bitmap with bits set for reachable objects
     """
     bitmap = EWAHBitmap()
+    complete = True
 
     # Traverse all objects reachable from the commit
     seen = set()
@@ -957,6 +962,10 @@ def build_reachability_bitmap(
         # Get the object and traverse its references
         try:
             obj = object_store[sha]
+            if raw_sha not in sha_to_pos:
+                # An object of this repository that lives outside the pack:
+                # there is no bit position for it
+                complete = False
 
             if isinstance(obj, Commit):
                 # Add parents and tree
@@ -970,7 +979,7 @@ def build_reachability_bitmap(
             # Object not in store, skip it
             continue
 
-    return bitmap
+    return bitmap if complete else None
 
 
 def apply_xor_compression(
@@ -1155,8 +1164,13 @@ def generate_bitmap(
         if progress and i % 10 == 0:
             progress(f"Building bitmap {i + 1}/{len(selected_commits)}")
 
+        # Only commits of this pack get an entry; filter before the XOR
+        # compression, whose offsets count the entries actually written.
+        if hex_to_sha(commit_sha) not in sha_to_pos:
+            continue
         bitmap = build_reachability_bitmap(commit_sha, sha_to_pos, object_store)
-        commit_bitmaps.append((commit_sha, bitmap))
+        if bitmap is not None:
+            commit_bitmaps.append((commit_sha, bitmap))
 
     if progress:
         progress("Applying XOR compression")
